@@ -116,7 +116,7 @@ def oracle(rec):
                 out.append(({"kind": "output-differs", "estimator": who, "method": m}, f"{m} on held-out input is not bit-identical: {v[:200]}"))
     for name, tag in (rec.get("gut_tags") or {}).items():
         if tag == "scipy_sparse":
-            out.append(({"kind": "untrusted-by-default", "family": "scipy.sparse"},
+            out.append(({"kind": "untrusted-by-default", "family": "scipy.sparse", "sort": "array" if name.endswith("_array") else "matrix"},
                         f"{who}: get_untrusted_types reports {name} although sparse matrices are a default-trusted family"))
         elif tag in DOCUMENTED_FAMILIES:
             out.append(({"kind": "untrusted-by-default", "family": tag, "name": name},
@@ -194,7 +194,7 @@ def run(R, only=None):
     R.notes["impure_methods"] = sorted(set(impure))
     R.notes["method_outputs_compared"] = nmeth
     R.notes["guards"] = ["C07_reduction: premises method_pure, resolve_name, codec (C05), getset_contract / reduce_contract",
-                         "C07_sparse_default_refuted: SparseMatrixNode trusts the single name scipy.sparse._matrix.spmatrix (finding D12)"]
+                         "C07_sparse_default_trusted: per-run, the concrete sparse matrix classes are defaults of SparseMatrixNode (D12 repaired)"]
     R.notes["not_modelled"] = ["numerical code of scikit-learn/BLAS (oracle)", "state outside __getstate__/__dict__/__reduce__", "other scikit-learn versions"]
     if not only:
         pr = impl("probe", {})
@@ -202,7 +202,7 @@ def run(R, only=None):
         for k, names_ in pr.items():
             for n in names_:
                 if n.startswith("scipy.sparse"):
-                    R.violation({"kind": "untrusted-by-default", "family": "scipy.sparse"},
+                    R.violation({"kind": "untrusted-by-default", "family": "scipy.sparse", "sort": "array" if n.endswith("_array") else "matrix"},
                                 f"{k}: get_untrusted_types reports {n} although sparse matrices are a default-trusted family", {"probe": k})
 
 
